@@ -297,11 +297,20 @@ def run(rep, tier, seed, pa):
 def replay(rep, data, pa):
     cfg = {k: data.get(k) for k in ("units", "dissim", "mode", "sampler", "n_samples", "precision", "numpy_seed", "ground_truth")}
     cfg["units"] = [[tuple(u) for u in us] for us in cfg["units"]]
-    a = run_config(pa, cfg, lambda: ForcedExecutor("fifo"))[0]
-    b = run_config(pa, cfg, lambda: ForcedExecutor("lifo"))[0]
-    c = run_config(pa, cfg, lambda: (lambda *x, **k: ThreadPoolExecutor(max_workers=16)))[0]
-    print("  fifo == lifo: %r, fifo == pool-16: %r" % (a == b, a == c))
-    return a == b == c
+    if data.get("windowed"):
+        cfg["windowed"] = True
+    outs, written = {}, []
+    # every forced schedule (fifo-now runs each job at submission, before the next sample is drawn: the one order in which a job's write to the input
+    # can reach the samples) and a real pool; writes to the input from worker threads are traced as in the check
+    for name, fac in (("fifo-now", lambda: ForcedExecutor("fifo-now")), ("fifo", lambda: ForcedExecutor("fifo")), ("lifo", lambda: ForcedExecutor("lifo")),
+                      ("delay-first", lambda: ForcedExecutor("delay-first")), ("pool-16", lambda: real_pool(16))):
+        outs[name] = run_config(pa, cfg, fac)[0]
+        if run_config.worker_writes:
+            written.append((name, sorted(set(k for k, _ in run_config.worker_writes))))
+    same = all(v == outs["fifo-now"] for v in outs.values())
+    print("  all schedules agree: %r (%s); attributes of the input written from worker threads: %r" % (
+        same, ", ".join("%s%s" % (n, "" if v == outs["fifo-now"] else " DIFFERS") for n, v in outs.items()), written))
+    return same and not written
 
 
 if __name__ == "__main__" and len(sys.argv) > 2 and sys.argv[1] == "--child":
